@@ -209,14 +209,10 @@ def gen_case(rng, probes=False):
 
 def gen_sparse(rng, probes):
     b = rng.choice([0, 0, 1, 2, 3])
-    subs = ["get", "get", "format"]
-    if probes:
-        subs += ["maxabs", "minabs", "max", "min"]
+    subs = ["get", "get", "format", "maxabs", "minabs", "max", "min"]
     sub = rng.choice(subs)
     size = rng.choice([1, 2, 3, 5, 8, 9, 17, 40])
     nw = rng.choice([0, 1, 2, 3, 5, 8, size, size + 3])
-    if sub in ("maxabs", "minabs", "max", "min"):
-        nw = max(nw, 1)
     if b > 0 and not (rng.random() < 0.3):
         nw = min(nw, size)      # more writes than slots make SparseVectorBlocked reallocate (was FEAT defect 4, fixed)
     w = max(b, 1)
@@ -263,7 +259,7 @@ def gen_script(rng, probes):
             steps.append("u")
         elif r < 0.93:
             steps.append("f %s" % vlib.frac_str(gen_scalar(rng)))
-        elif probes and not big:
+        elif not big or rng.random() < 0.05:
             steps.append("m %s" % rng.choice(["maxabs", "minabs", "max", "min"]))
         else:
             steps.append("r %d" % rng.randrange(size))
@@ -303,12 +299,8 @@ CORPUS = [
 
 # inputs that reproduce the FEAT defects recorded in FINDINGS_C04.md (only run in probe mode)
 PROBE_CORPUS = [
-    "sv maxabs 5 2 1 2/1 3 9/1",
-    "sv min 5 2 1 2/1 3 7/1",
-    "svb 2 maxabs 4 1 1 7/1 8/1",
     "maxabs a 0 0 T 2 D B 2 2 1 0 1 -5/1",
     "max a 0 0 P 2 D 2 2 0 2 1/1 3/1",
-    "svs 0 5 4 w 1 2/1 w 3 9/1 m maxabs m min",
 ]
 
 
@@ -430,14 +422,10 @@ def sqr_ok(val, s, leaves):
 
 
 def classify(case):
-    """'main' | 'undefined' (operation not defined on this input) | 'probe1..4' (known FEAT defects)"""
+    """'main' | 'undefined' (operation not defined on this input) | 'probe2' (open FEAT defect: empty sub-vector)"""
     p = parse_case(case)
     op = p["op"]
-    if op == "svs":
-        return "probe1" if any(st[0] == "m" for st in p["steps"]) else "main"
-    if op in ("sv", "svb"):
-        if p["sub"] in ("maxabs", "minabs", "max", "min"):
-            return "probe1"
+    if op in ("svs", "sv", "svb"):
         return "main"
     if op in MINMAX:
         if sum(p["sizes"]) == 0:
@@ -675,8 +663,6 @@ def describe(case):
 def signature(case, out, why):
     kind = classify(case)
     t = case.split()
-    if kind == "probe1" and why and ("of the flattened sparse vector" in why or is_abnormal(out)):
-        return "sparse-minmax-scans-size-entries"
     if kind == "probe2":
         return "minmax-empty-component"
     return "%s:%s" % (t[0], (why or "")[:40])
@@ -693,7 +679,7 @@ def canon(out):
 def model_filter(case):
     # the model is compared on every input: it says UNDEF where the code reads a null / out-of-range array
     # (min/max on an empty (sub-)vector) and is the code *as it is* for the sparse min/max members (the difference
-    # to their specification is the theorem C04.sparse_max_abs_as_coded_differs)
+    # to their specification by C04.sparse_extreme_eq_dense)
     return True
 
 
